@@ -1,8 +1,10 @@
 """C18 — Lindbladian generators: correspondence with QModel.C18 and property oracle on the real code.
 
-Known defects handled with precise signatures (see known_findings.d/C18.json):
-  D12  calc_j_mat enumerates basis[1:] (identity component dropped, coefficient of basis[1] halved)
-  D13  generate_j_part_cb_from_jump_operators uses the jump operators themselves instead of c^dagger c
+Defects with precise signatures:
+  D12  calc_j_mat enumerated basis[1:] (identity component dropped, coefficient of basis[1] halved) - REPAIRED in /repo by
+       `fix:` 8192d10; the `.../identity-component-dropped` signatures stay live and are no longer known findings, so
+       re-introducing the defect is reported as a VIOLATION
+  D13  generate_j_part_cb_from_jump_operators uses the jump operators themselves instead of c^dagger c (known finding)
 Every D12/D13-affected check compares the observed value with BOTH the correct value and the value the
 documented defect predicts; anything that matches neither gets a different (`.../other`) signature."""
 import itertools
@@ -542,8 +544,7 @@ def check_jump(ctx, label, rot_seed, c, B, cs, family, g):
 
 PARTIAL = [
     {"theorem": "exp_tp_partial", "missing": "first row of every partial sum of the exponential series is e0 (all N, all sizes); the limit statement for Matrix.exp and complete positivity of exp(L) (Lindblad's theorem) are not formalised - to_gate's CP/TP is checked per run on the implementation"},
-    {"theorem": "extract_j_of_rebuild_fixed_partial", "missing": "holds for the proposed patch calcJMatFixedCb (whole basis); for the coded calc_j_mat the clause is false (extract_rebuild_j_fails, calcJMat_coded_coef) - D12"},
-    {"theorem": "parts_sum_fixed_partial", "missing": "holds for the proposed patch and for generators of the form rebuild(H,J,K); with the coded calc_j_mat the clause is false (parts_sum_fails) - D12; surjectivity of rebuild onto Hermiticity-preserving generators not formalised"},
+    {"theorem": "parts_sum", "missing": "proved for generators of the form rebuild(H,J,K) (Hermitian H, J; any K); surjectivity of rebuild onto Hermiticity-preserving generators is not formalised - the oracle evaluates the clause on generic real hs as well"},
     {"theorem": "gksl_action_hk / from_hk_row0", "missing": "stated for the exact complex matrix before _truncate_hs; the float truncation layer is modelled (truncateHs) and tied by the correspondence only; physical <=> (row0 = 0 and K PSD) is proved only as verdict wiring (isTp_iff) - 'K PSD <=> exp(tL) CP' is not proved"},
     {"theorem": "jump_operators_gksl_fails", "missing": "negation witness only (D13): the generator built from jump operators is not the GKSL one as coded"},
 ]
